@@ -57,6 +57,7 @@ func c08Profile(ac bool) func(c *sim.RunCtx) {
 		}
 		var corruptions []corruption
 		opInvoke := map[int]int{} // goroutine -> invoke seq of its current op
+		opRecs := map[int]int{}   // goroutine -> number of block writes recorded when its current op was invoked
 
 		// qmax returns the newest quarantined incarnation as of seq.
 		qmax := func(w *storeWorld, seq int) int {
@@ -96,6 +97,7 @@ func c08Profile(ac bool) func(c *sim.RunCtx) {
 		opts := &storeRunOpts{cfg: cfg, wo: wo}
 		opts.setup = func(w *storeWorld) {
 			w.tolerateIntegrity = true
+			w.discardsSeen = discards
 			ft := c.T.Fault
 			prev := w.s.StepHook
 			w.s.StepHook = func() {
@@ -152,7 +154,11 @@ func c08Profile(ac bool) func(c *sim.RunCtx) {
 					if r.G != g {
 						continue
 					}
-					if r.Seq >= u.Invoke {
+					// (a write belongs to this upload only if it was recorded
+					// after the upload was invoked: a refresh by the same
+					// caller's previous FindMissing can be finalized at the very
+					// step the upload starts)
+					if i >= opRecs[g] && r.Seq >= u.Invoke {
 						if q := qmax(w, r.Seq); r.Block.ID <= q {
 							c.Fail("upload-into-quarantined-block-acked", "%s was acknowledged although it was written into block incarnation #%d and corruption had been detected in incarnation #%d before it was finalized", op, r.Block.ID, q)
 						}
@@ -241,6 +247,7 @@ func c08Profile(ac bool) func(c *sim.RunCtx) {
 		opts.perStep = nil
 		w := runStoreForwardHook(c, opts, func(w *storeWorld, op *storeOp) {
 			opInvoke[w.s.Cur().ID] = w.s.Steps
+			opRecs[w.s.Cur().ID] = len(w.e.putRecs)
 		})
 		if w == nil || c.Failed() {
 			return
@@ -306,6 +313,13 @@ func runStoreForwardHook(c *sim.RunCtx, o *storeRunOpts, before func(w *storeWor
 					ok = true
 					break
 				}
+			}
+			if !ok && !c.Failed() && w.discardsSeen != nil && w.discardsSeen() {
+				// the index itself dropped an entry (reported through its
+				// metrics): that an acknowledged upload is not found then is
+				// the index's documented behaviour, not the quarantine's
+				c.Count("runs_excluded_index_discard", 1)
+				return
 			}
 			if !ok && !c.Failed() {
 				c.Fail("store-unusable-after-quarantine", "after the last corruption %d rounds of upload + read-back of o%d never produced a readable object", attempts, oi)
